@@ -98,14 +98,23 @@ def strings(alpha, maxlen):
             yield ''.join(t)
 
 
+_MACHINES = {}        # one machine per expression, reused for all inputs (delegate() resets it at the start of every run)
+
+
 def impl_regex(rx, inp, bytes_mode=False, chunks=None):
     """-> ('ok', consumed, stored) | ('nonterminal',) | ('other', name)"""
     import cpppo
     from cpppo import automata as A, dotdict
-    try:
-        m = (A.regex_bytes if bytes_mode else A.regex)(initial=rx, context='r', terminal=True)
-    except Exception as e:
-        return ('build', type(e).__name__)
+    key = (rx, bytes_mode)
+    m = _MACHINES.get(key)
+    if m is None:
+        try:
+            m = (A.regex_bytes if bytes_mode else A.regex)(initial=rx, context='r', terminal=True)
+        except Exception as e:
+            return ('build', type(e).__name__)
+        if len(_MACHINES) > 400:
+            _MACHINES.clear()
+        _MACHINES[key] = m
     data = inp.encode('utf-8') if bytes_mode else inp
     if chunks is None:
         r = G.impl_run(m, data)
@@ -142,39 +151,52 @@ def impl_regex(rx, inp, bytes_mode=False, chunks=None):
 def run(ctx):
     ctx.prove()
     rng = ctx.rng
-    size = 3 if ctx.thorough else 2
-    maxlen = 6 if ctx.thorough else 4
+    size = 2
+    maxlen = 5 if ctx.thorough else 4
     res = enumerate_res(size)
     if not ctx.thorough:
         keep = [r for r in res if sum(1 for _ in str(r)) < 60]
         res = keep[:40] + rng.sample(keep[40:], min(len(keep) - 40, 260))
+    else:
+        # every expression with <= 2 operators, plus a sample of those with 3
+        big = enumerate_res(3)
+        res = res + rng.sample(big[len(res):], 1500)
     # the expressions used inside cpppo itself
     lib = [(r'.*', ('star', ('set', True, ''))), (r'\d+', None), (r'[^\x00]*', None)]
     inputs = list(strings(ALPHA + 'c', maxlen))
-    cases, meta = [], []
-    for r in res:
-        rx = show(r)
-        cr = core_re(r)
-        for s in (inputs if ctx.thorough else rng.sample(inputs, min(len(inputs), 60))):
-            cases.append(cr + [len(s)] + [ord(c) for c in s]); meta.append((rx, r, s))
-    outs = core.run_model('regex', cases)
     ndis, nbad, first = 0, 0, None
     nacc = 0
-    built = {}
-    for (rx, r, s), o in zip(meta, outs):
-        io = impl_regex(rx, s)
-        if o[0] == 1:
-            mo = ('ok', o[1], [ord(c) for c in s[:o[1]]]); nacc += 1
-        else:
-            mo = ('nonterminal',)
-        if io != mo:
-            ndis += 1
-            first = first or dict(regex=rx, input=s, impl=repr(io), reference=repr(mo))
-            # the reference is the standard semantics (C11_run): a disagreement is a failing input
-            nbad += 1
-            if nbad <= 3:
-                ctx.violation(dict(regex=rx, input=s, machine=repr(io), standard_semantics=repr(mo)),
-                              'regex machine does not consume/accept the longest viable prefix of the input')
+    ncases = 0
+    nontriv = set()
+    sample_rows = []
+    CH = 120
+    for c0 in range(0, len(res), CH):
+        cases, meta = [], []
+        for r in res[c0:c0 + CH]:
+            rx = show(r)
+            cr = core_re(r)
+            for s in (inputs if ctx.thorough else rng.sample(inputs, min(len(inputs), 60))):
+                cases.append(cr + [len(s)] + [ord(c) for c in s]); meta.append((rx, r, s))
+        outs = core.run_model('regex', cases)
+        ncases += len(cases)
+        for (rx, r, s), o in zip(meta, outs):
+            io = impl_regex(rx, s)
+            if o[0] == 1:
+                mo = ('ok', o[1], [ord(c) for c in s[:o[1]]]); nacc += 1
+                if len(nontriv) < 200000:
+                    nontriv.add((rx, s))
+            else:
+                mo = ('nonterminal',)
+            if io != mo:
+                ndis += 1
+                first = first or dict(regex=rx, input=s, impl=repr(io), reference=repr(mo))
+                # the reference is the standard semantics (C11_run): a disagreement is a failing input
+                nbad += 1
+                if nbad <= 3:
+                    ctx.violation(dict(regex=rx, input=s, machine=repr(io), standard_semantics=repr(mo)),
+                                  'regex machine does not consume/accept the longest viable prefix of the input')
+        if len(sample_rows) < 4 and meta:
+            sample_rows.append((meta[0][0], meta[0][2], outs[0]))
     # bytes machines with a multi-byte symbol, and chunked feeding
     nb = 0
     nknown = 0
@@ -236,10 +258,10 @@ def run(ctx):
             ndis += 1
             first = first or dict(kind='engine model', regex=rx, input=s, impl=repr(ir)[:300], model=repr(mr)[:300])
     cov = ctx.coverage
-    cov['evaluations'] = len(cases) + nb + neng
-    cov['distinct_nontrivial'] = len({(rx, s) for (rx, r, s), o in zip(meta, outs) if o[0] == 1})
+    cov['evaluations'] = ncases + nb + neng
+    cov['distinct_nontrivial'] = len(nontriv)
     cov['exhaustive'] = bool(ctx.thorough)
-    cov['rule'] = ('all expressions with <= %d operators (%s) over atoms {a, b, ., [ab], [^a], [^ab]} with * + ? {m,n} | and concatenation, each on '
+    cov['rule'] = ('all expressions with <= %d operators (%s; thorough adds 1500 sampled expressions with 3 operators) over atoms {a, b, ., [ab], [^a], [^ab]} with * + ? {m,n} | and concatenation, each on '
                    '%s strings over {a,b,c} up to length %d; 7 expressions with multi-byte symbols as bytes machines on all strings over {a,b,e-acute} '
                    'whole and at every 2-way chunking; a sample of the machine graphs also through the engine model; non-trivial = accepted runs'
                    % (size, 'exhaustive' if ctx.thorough else 'sampled', 'all' if ctx.thorough else '60 sampled', maxlen))
@@ -252,8 +274,8 @@ def run(ctx):
         ctx.unresolved('correspondence cpppo regex machines = Model.Regex.rrun / Model.Engine.run', first)
     elif ndis:
         ctx.broken.append('correspondence cpppo regex machines = Model.Regex.rrun')
-    for (rx, r, s), o in list(zip(meta, outs))[:: max(1, len(meta) // 4)][:4]:
-        ctx.sample(dict(regex=rx, input=s, reference=o))
+    for rx, s_, o in sample_rows:
+        ctx.sample(dict(regex=rx, input=s_, reference=o))
     ctx.assumptions += ['greenery (regex -> DFA) is third-party: exercised, not verified; the reference semantics is independent of it',
                         'a negated class always leaves some symbol (unbounded alphabet)']
 
